@@ -1211,7 +1211,7 @@ def run(ctx):
         if unk:
             ctx.violation("formatter of field(s) %s of %s %s behaves like no codec of the model" % (unk, kind, ver),
                           {"kind": kind, "ver": list(ver), "what": "reflect", "fields": unk}, no_input=True)
-    ok, why = ctx.coq_props(expect_min=1)
+    ok, why = ctx.coq_props(expect_min=16)
     key_oracle(ctx, rows)
     rng = ctx.rng
     per = 12 if ctx.tier == "quick" else 260
